@@ -8,7 +8,7 @@ use anda_db::query::{Filter, Fv, Query, RangeQuery, Search};
 use serde_json::json;
 use std::sync::Arc;
 use vcore::{Run, Tier, Violation, util};
-use vdb::fixture::{self, Idx, VDoc, vdoc};
+use vdb::fixture::{self, Idx, VDoc, vdoc, vdoc_codes};
 use vdb::model::DocModel;
 
 fn datasets() -> Vec<(&'static str, Vec<VDoc>)> {
@@ -16,25 +16,26 @@ fn datasets() -> Vec<(&'static str, Vec<VDoc>)> {
         (
             "anti",
             vec![
-                vdoc("zeta", 50, None, &["a", "b"], "alpha beta"),
-                vdoc("alpha", 10, Some(3), &["b"], "beta gamma"),
-                vdoc("mid", 5, Some(1), &[], "alpha"),
-                vdoc("beta", 40, None, &["c", "a"], "gamma delta alpha"),
-                vdoc("omega", 10, Some(3), &["a"], "beta"),
-                vdoc("delta", 30, Some(2), &["b", "c"], "alpha alpha beta"),
+                // codes: a UNIQUE array index; several keys of one document fall into one range
+                vdoc_codes("zeta", 50, None, &["a", "b"], &["c8", "c1", "c5"], "alpha beta"),
+                vdoc_codes("alpha", 10, Some(3), &["b"], &["c7"], "beta gamma"),
+                vdoc_codes("mid", 5, Some(1), &[], &[], "alpha"),
+                vdoc_codes("beta", 40, None, &["c", "a"], &["c2", "c9"], "gamma delta alpha"),
+                vdoc_codes("omega", 10, Some(3), &["a"], &["c3", "c4", "c6"], "beta"),
+                vdoc_codes("delta", 30, Some(2), &["b", "c"], &["c0"], "alpha alpha beta"),
             ],
         ),
         (
             "holes",
             // ids 1..7 with 2 and 5 removed afterwards: the id space has holes
             vec![
-                vdoc("n7", 7, Some(9), &["x"], "alpha"),
-                vdoc("n6", 6, None, &["y"], "beta"),
-                vdoc("n5", 7, Some(8), &["x", "y"], "alpha beta"),
-                vdoc("n4", 1, Some(9), &[], "gamma"),
-                vdoc("n3", 6, Some(1), &["z"], "alpha gamma"),
-                vdoc("n2", 3, None, &["x", "z"], "beta beta"),
-                vdoc("n1", 1, Some(5), &["y", "z"], "delta"),
+                vdoc_codes("n7", 7, Some(9), &["x"], &["k3", "k4"], "alpha"),
+                vdoc_codes("n6", 6, None, &["y"], &["k9"], "beta"),
+                vdoc_codes("n5", 7, Some(8), &["x", "y"], &["k1", "k7", "k8"], "alpha beta"),
+                vdoc_codes("n4", 1, Some(9), &[], &[], "gamma"),
+                vdoc_codes("n3", 6, Some(1), &["z"], &["k2", "k6"], "alpha gamma"),
+                vdoc_codes("n2", 3, None, &["x", "z"], &["k5"], "beta beta"),
+                vdoc_codes("n1", 1, Some(5), &["y", "z"], &["k0"], "delta"),
             ],
         ),
         (
@@ -70,6 +71,7 @@ fn build(name: &'static str, docs: Vec<VDoc>) -> Data {
             Idx {
                 body: true,
                 emb: true,
+                codes: true,
                 ..Idx::BTREES
             },
         )
@@ -121,7 +123,7 @@ fn consts(data: &Data, field: &str) -> Vec<Fv> {
             ks.dedup();
             ks.into_iter().map(Fv::U64).collect()
         }
-        "name" | "tags" => {
+        "name" | "tags" | "codes" => {
             let mut ks: Vec<String> = data
                 .model
                 .btree(field)
@@ -228,10 +230,26 @@ fn range_trees(cs: &[Fv], tier: Tier) -> Vec<RangeQuery<Fv>> {
         }
     }
     out.extend(depth2);
+    // three-operand range-level conjunctions / disjunctions in every order over a
+    // small operand set that contains negations: an operand after the second one
+    // must still be applied when one key is left, and the result must not depend
+    // on the operand order
+    let mut rep_t: Vec<RangeQuery<Fv>> = stride(&a, tier.pick(5, 8));
+    for x in stride(&a, 2) {
+        rep_t.push(RangeQuery::Not(Box::new(x)));
+    }
+    for x in &rep_t {
+        for y in &rep_t {
+            for z in &rep_t {
+                out.push(RangeQuery::And(vec![Box::new(x.clone()), Box::new(y.clone()), Box::new(z.clone())]));
+                out.push(RangeQuery::Or(vec![Box::new(x.clone()), Box::new(y.clone()), Box::new(z.clone())]));
+            }
+        }
+    }
     out
 }
 
-const FIELDS: [&str; 5] = ["_id", "age", "opt", "tags", "name"];
+const FIELDS: [&str; 6] = ["_id", "age", "opt", "tags", "name", "codes"];
 
 struct Case<'a> {
     data: &'a Data,
@@ -609,7 +627,7 @@ fn main() {
         }
     }
     run.rule(
-        "all filter trees to depth 3 (range-level and filter-level And/Or/Not over Eq/Gt/Ge/Lt/Le/Between incl. inverted/Include incl. dup+empty) over _id and 4 B-tree indexes of 2 collections with key order de-correlated from id order, x limits {None,0..n+1,MAX+1} x {query_ids, query_last_ids, query_all_ids, search_ids}; depth 2/3 composites over a deterministic stride of representative operands; non-trivial = model result neither empty nor everything; distinct by (dataset, filter)",
+        "all filter trees to depth 3 (range-level and filter-level And/Or/Not over Eq/Gt/Ge/Lt/Le/Between incl. inverted/Include incl. dup+empty) over _id and 5 B-tree indexes (scalar, optional, array, unique scalar, UNIQUE ARRAY whose documents hold several keys) of 2 collections with key order de-correlated from id order, x limits {None,0..n+1,MAX+1} x {query_ids, query_last_ids, query_all_ids, search_ids}; depth 2/3 composites over a deterministic stride of representative operands; non-trivial = model result neither empty nor everything; distinct by (dataset, filter)",
     );
     run.assume("collections of 5-6 live documents plus one of 24 whose search candidate lists exceed the page (hybrid text+vector search with a filter: subset, prefix and tautology laws); constants from the boundary set of each index");
     run.finish();
